@@ -49,9 +49,13 @@ def main(argv):
             ops = [['indent', cfg]]
             if rng.random() < 0.5:
                 ops.append(['indent', cfg if rng.random() < 0.6 else G.rand_indcfg(rng)])
+            if rng.random() < 0.4:
+                ops.append(['indent_again'])      # indent() without argument re-applies the options last given
             if rng.random() < 0.3:
                 ops.append(['append', G.rand_content(rng, 2)])
                 ops.append(['indent', G.rand_indcfg(rng)])
+            if rng.random() < 0.1:
+                ops.insert(0, ['indent_again'])   # ... and the default options when none were given yet
             cases.append(T.c_hist(['l', [['s', x] for x in lines]], hdr, ops))
     step = 0x8000
     for lo in range(0, 0x110000, step):
